@@ -29,16 +29,15 @@ Section FPSEL.
     | c :: cs' => N.shiftl (b2n (eval_clause c r)) i + rowmask_w cs' (i + 1) r
     end.
 
-  Lemma shl_small b i : i < 8 -> N.shiftl (b2n b) i mod 256 = N.shiftl (b2n b) i.
+  Lemma shl_small b i : i < 64 -> N.shiftl (b2n b) i mod (2 ^ 64) = N.shiftl (b2n b) i.
   Proof.
     intros Hi. apply N.mod_small. rewrite N.shiftl_mul_pow2.
-    assert (H256 : 256 = 2 ^ 8) by reflexivity. rewrite H256.
     destruct b; cbn [b2n].
     - rewrite N.mul_1_l. apply N.pow_lt_mono_r; lia.
     - rewrite N.mul_0_l. apply N.neq_0_lt_0. apply N.pow_nonzero. lia.
   Qed.
 
-  Lemma rowmask_width cs : forall i r, i + N.of_nat (List.length cs) <= 8 -> rowmask cs i r = rowmask_w cs i r.
+  Lemma rowmask_width cs : forall i r, i + N.of_nat (List.length cs) <= 64 -> rowmask cs i r = rowmask_w cs i r.
   Proof.
     induction cs as [|c cs IH]; intros i r H; cbn [PromSem.rowmask rowmask_w]; [reflexivity|].
     cbn [List.length] in H. rewrite shl_small by lia. rewrite IH by lia. reflexivity.
@@ -102,14 +101,14 @@ Section FPSEL.
     - now apply N.ones_spec_high.
   Qed.
 
-  Lemma group_bit_or_width cs rows : N.of_nat (List.length cs) <= 8 ->
+  Lemma group_bit_or_width cs rows : N.of_nat (List.length cs) <= 64 ->
     group_bit_or re_match cs rows = fold_left (fun acc r => N.lor acc (rowmask_w cs 0 r)) rows 0.
   Proof.
     intros H. unfold group_bit_or. generalize 0 at 2 4. induction rows as [|r rows IH]; intros acc; cbn [fold_left]; [reflexivity|].
     rewrite rowmask_width by lia. apply IH.
   Qed.
 
-  Lemma having_iff cs rows : N.of_nat (List.length cs) <= 8 ->
+  Lemma having_iff cs rows : N.of_nat (List.length cs) <= 64 ->
     group_bit_or re_match cs rows = 2 ^ (N.of_nat (List.length cs)) - 1 <->
     forall c, List.In c cs -> exists r, List.In r rows /\ eval_clause c r = true.
   Proof.
@@ -140,7 +139,7 @@ Section FPSEL.
         assert (N.to_nat k < List.length cs)%nat by (apply nth_error_Some; congruence). lia.
   Qed.
 
-  Theorem fp_sel_correct D t cs gin fp : cs <> [] -> (List.length cs <= 8)%nat ->
+  Theorem fp_sel_correct D t cs gin fp : cs <> [] -> (List.length cs <= 63)%nat ->
     List.In fp (fp_sel re_match D t cs gin) <-> series_matches D t cs gin fp.
   Proof.
     intros Hne Hw. unfold fp_sel, series_matches.
@@ -397,7 +396,7 @@ Section EXACT.
   Proof. unfold clause_of, prom_matcher. destruct (m_op m); reflexivity. Qed.
 
   Theorem prom_fp_select D gin series ms fp :
-    db_ok D gin series -> ms <> [] -> (List.length ms <= 8)%nat ->
+    db_ok D gin series -> ms <> [] -> (List.length ms <= 63)%nat ->
     (forall m, List.In m ms -> matcher_guard series m) ->
     (List.In fp (fp_sel re_match D 2 (map clause_of (map prom_matcher ms)) gin) <->
      List.In fp (expected_fps re_full D ms series)).
@@ -882,7 +881,7 @@ Section COMPOSE.
   Theorem prom_rows_exact cluster dbname h ms db :
     use_raw_data h = true -> h_step h = 0%Z ->
     db_ok (from_day (h_start h * 1000000)) (d_gin db) (d_series db) ->
-    ms <> [] -> (List.length ms <= 8)%nat ->
+    ms <> [] -> (List.length ms <= 63)%nat ->
     (forall m, List.In m ms -> matcher_guard re_full (d_series db) m) ->
     prom_query_rows cluster dbname h ms db = Some (expected_rows re_full h ms db).
   Proof.
@@ -925,7 +924,7 @@ Section SELECTED.
   Theorem prom_select_series_exact cluster dbname h ms db :
     use_raw_data h = true -> h_step h = 0%Z ->
     db_ok (from_day (h_start h * 1000000)) (d_gin db) (d_series db) ->
-    ms <> [] -> (List.length ms <= 8)%nat ->
+    ms <> [] -> (List.length ms <= 63)%nat ->
     (forall m, List.In m ms -> matcher_guard re_full (d_series db) m) ->
     exists rows, prom_query_rows re_match cluster dbname h ms db = Some rows /\
       let ss := select_loop (snd (querier_transpile cluster dbname h ms)) rows in
@@ -1024,7 +1023,7 @@ Lemma w_expected : expected_rows re_lit w_hints w_ms w_db =
   [{| r_fp := 31; r_val := 1; r_ts := 1700000001000 |}; {| r_fp := 32; r_val := 2; r_ts := 1700000001000 |}].
 Proof. vm_compute. reflexivity. Qed.
 
-(* nine matchers, a series carrying exactly these labels *)
+(* nine matchers, a series carrying exactly these labels: selected *)
 Definition nine : list (string * string) :=
   [("a","1");("b","2");("c","3");("d","4");("e","5");("f","6");("g","7");("h","8");("i","9")].
 Definition n_series : list tsrow := [{| t_date := 19675; t_fp := 41; t_type := 2; t_labels := nine |}].
@@ -1033,7 +1032,8 @@ Definition n_db : database :=
      d_samples := [{| sm_fp := 41; sm_type := 2; sm_ts_ns := 1700000001000000000; sm_value := 1 |}];
      d_series := n_series |}.
 Definition n_ms : list matcher := map (fun kv => {| m_name := fst kv; m_op := MEq; m_val := snd kv |}) nine.
-Lemma n_rows : prom_query_rows re_lit false "qryn" w_hints n_ms n_db = Some [].
+(* (before fix 052673d the ninth bit was shifted out of UInt8 and nothing was selected) *)
+Lemma n_rows : prom_query_rows re_lit false "qryn" w_hints n_ms n_db = Some [{| r_fp := 41; r_val := 1; r_ts := 1700000001000 |}].
 Proof. vm_compute. reflexivity. Qed.
 Lemma n_expected : expected_rows re_lit w_hints n_ms n_db = [{| r_fp := 41; r_val := 1; r_ts := 1700000001000 |}].
 Proof. vm_compute. reflexivity. Qed.
@@ -1045,7 +1045,7 @@ Proof. vm_compute. reflexivity. Qed.
 Lemma w_expected_none : expected_rows re_none w_hints w_ms w_db =
   [{| r_fp := 31; r_val := 1; r_ts := 1700000001000 |}; {| r_fp := 32; r_val := 2; r_ts := 1700000001000 |}].
 Proof. vm_compute. reflexivity. Qed.
-Lemma n_rows_none : prom_query_rows re_none false "qryn" w_hints n_ms n_db = Some [].
+Lemma n_rows_none : prom_query_rows re_none false "qryn" w_hints n_ms n_db = Some [{| r_fp := 41; r_val := 1; r_ts := 1700000001000 |}].
 Proof. vm_compute. reflexivity. Qed.
 Lemma n_expected_none : expected_rows re_none w_hints n_ms n_db = [{| r_fp := 41; r_val := 1; r_ts := 1700000001000 |}].
 Proof. vm_compute. reflexivity. Qed.
@@ -1060,7 +1060,7 @@ Qed.
 Definition g_ms : list matcher := [{| m_name := "__name__"; m_op := MEq; m_val := "up" |}; {| m_name := "env"; m_op := MEq; m_val := "dev" |}].
 Example partial_hypotheses_met :
   use_raw_data w_hints = true /\ h_step w_hints = 0%Z /\
-  db_ok (from_day (h_start w_hints * 1000000)) (d_gin w_db) (d_series w_db) /\ g_ms <> [] /\ (List.length g_ms <= 8)%nat /\
+  db_ok (from_day (h_start w_hints * 1000000)) (d_gin w_db) (d_series w_db) /\ g_ms <> [] /\ (List.length g_ms <= 63)%nat /\
   (forall m, List.In m g_ms -> matcher_guard re_none (d_series w_db) m) /\
   prom_query_rows re_none false "qryn" w_hints g_ms w_db = Some [{| r_fp := 32; r_val := 2; r_ts := 1700000001000 |}].
 Proof.
@@ -1106,7 +1106,7 @@ Section PROF.
   (* the reading of the profile selector statement: which fingerprints it returns *)
   Theorem prof_sel_correct D1 D2 sels rows fp :
     let '(g, kv) := split_selectors sels in
-    (List.length kv <= 8)%nat ->
+    (List.length kv <= 63)%nat ->
     (List.In fp (prof_fp_sel re_match D1 D2 sels rows) <->
      match kv with
      | [] => exists r, prow_sem D1 D2 g rows fp r
@@ -1203,7 +1203,7 @@ Section PROFEXACT.
 
   Theorem prof_fp_select D1 D2 sels series fp :
     pdb_ok series ->
-    (List.length (snd (split_selectors (map prof_selector_val sels))) <= 8)%nat ->
+    (List.length (snd (split_selectors (map prof_selector_val sels))) <= 63)%nat ->
     (forall sel, List.In sel sels -> selector_guard series sel) ->
     (List.In fp (prof_fp_sel re_match D1 D2 (map prof_selector_val sels) (pgin_of series)) <->
      List.In fp (prof_expected re_full D1 D2 sels series)).
@@ -1295,7 +1295,7 @@ Definition pg_sels : list selector :=
   [{| sl_name := "__name__"; sl_op := MEq; sl_val := "process_cpu" |}; {| sl_name := "__sample_type__"; sl_op := MEq; sl_val := "cpu" |};
    {| sl_name := "pod"; sl_op := MEq; sl_val := "p-1" |}].
 Example prof_partial_hypotheses_met :
-  pdb_ok pw_series /\ (List.length (snd (split_selectors (map prof_selector_val pg_sels))) <= 8)%nat /\
+  pdb_ok pw_series /\ (List.length (snd (split_selectors (map prof_selector_val pg_sels))) <= 63)%nat /\
   (forall sel, List.In sel pg_sels -> selector_guard re_none pw_series sel) /\
   prof_fp_sel re_none 19675 19675 (map prof_selector_val pg_sels) (pgin_of pw_series) = [61%N].
 Proof.
@@ -1658,7 +1658,7 @@ Section FINAL.
   Theorem prom_select_exact_series cluster dbname h ms db :
     use_raw_data h = true -> h_step h = 0%Z ->
     db_ok (day_from h) (d_gin db) (d_series db) ->
-    ms <> [] -> (List.length ms <= 8)%nat ->
+    ms <> [] -> (List.length ms <= 63)%nat ->
     (forall m, List.In m ms -> matcher_guard re_full (d_series db) m) ->
     (* a sample inside the window belongs to a series announced between the two date bounds of the labels request *)
     (forall sm, List.In sm (d_samples db) -> window_ok h sm = true ->
@@ -2016,3 +2016,69 @@ Section PBRIDGE.
       rewrite pflat_fp. cbn [map]. apply filter_ext. intros fp. apply (Hhave fp _ k kv').
   Qed.
 End PBRIDGE.
+
+(* ====================================================================================== *)
+(* M. several Selects on one querier                                                      *)
+(* ====================================================================================== *)
+Open Scope list_scope.
+Definition planned_fps (mr : bool) (from_ms to_ms : Z) (rows : list row) : list N :=
+  lg_plan (fold_left lg_plan_fp (map ps_fp (select_loop mr rows)) (new_getter from_ms to_ms)).
+
+Lemma plan_fold_fields fps g :
+  lg_from (fold_left lg_plan_fp fps g) = lg_from g /\ lg_to (fold_left lg_plan_fp fps g) = lg_to g /\
+  lg_has (fold_left lg_plan_fp fps g) = lg_has g /\
+  (forall fp, List.In fp fps -> List.In fp (lg_plan (fold_left lg_plan_fp fps g))).
+Proof.
+  revert g. induction fps as [|fp fps IH]; intros g; cbn [fold_left]; [repeat split; intros fp []|].
+  destruct (IH (lg_plan_fp g fp)) as [H1 [H2 [H3 H4]]].
+  assert (Hf : lg_from (lg_plan_fp g fp) = lg_from g /\ lg_to (lg_plan_fp g fp) = lg_to g /\ lg_has (lg_plan_fp g fp) = lg_has g /\
+               List.In fp (lg_plan (lg_plan_fp g fp)) /\ (forall x, List.In x (lg_plan g) -> List.In x (lg_plan (lg_plan_fp g fp)))).
+  { unfold lg_plan_fp. destruct (existsb (N.eqb fp) (lg_plan g)) eqn:E; cbn.
+    - repeat split; try reflexivity; [|tauto]. apply existsb_exists in E. destruct E as [y [Hy He]]. apply N.eqb_eq in He. now subst.
+    - repeat split; try reflexivity; [apply in_or_app; right; now left|intros; apply in_or_app; now left]. }
+  destruct Hf as [F1 [F2 [F3 [F4 F5]]]].
+  split; [congruence|]. split; [congruence|]. split; [congruence|].
+  intros x [Hx|Hx]; [subst x|now apply H4].
+  clear -F4. revert F4. generalize (lg_plan_fp g fp). induction fps as [|y fps IH]; intros g' Hin; cbn [fold_left]; [assumption|].
+  apply IH. unfold lg_plan_fp. destruct (existsb (N.eqb y) (lg_plan g')); cbn; [assumption|apply in_or_app; now left].
+Qed.
+
+(* a Select on a querier = the pure assembly select_series over the reply to ITS OWN labels request *)
+Theorem select_step_meaning answer st c :
+  snd (select_step answer st c) =
+  select_series (cl_mr c) (cl_rows c) (answer (cl_from c) (cl_to c) (planned_fps (cl_mr c) (cl_from c) (cl_to c) (cl_rows c))).
+Proof.
+  unfold select_step, select_series, planned_fps. cbn [snd].
+  set (ss := select_loop (cl_mr c) (cl_rows c)).
+  set (g1 := fold_left lg_plan_fp (map ps_fp ss) (new_getter (cl_from c) (cl_to c))).
+  destruct (plan_fold_fields (map ps_fp ss) (new_getter (cl_from c) (cl_to c))) as [Hf [Ht [Hh Hin]]]. fold g1 in Hf, Ht, Hh, Hin.
+  cbn [new_getter lg_from lg_to lg_has] in Hf, Ht, Hh.
+  unfold lg_fetch. destruct (lg_plan g1) as [|fp0 fps] eqn:Ep.
+  - (* nothing planned: no series was opened *)
+    destruct ss as [|s ss']; [reflexivity|]. exfalso. apply (Hin (ps_fp s)). now left.
+  - assert (Hget : forall fp, lg_get {| lg_from := lg_from g1; lg_to := lg_to g1; lg_has := lg_has g1 ++ answer (lg_from g1) (lg_to g1) (fp0 :: fps); lg_plan := lg_plan g1 |} fp
+                   = labels_get (answer (cl_from c) (cl_to c) (fp0 :: fps)) fp).
+    { intros fp. unfold lg_get. cbn [lg_has]. rewrite Hh, Hf, Ht. reflexivity. }
+    assert (Hext : forall (f g : N -> labels), (forall fp, f fp = g fp) ->
+              isort out_lt (map (fun s => {| o_labels := f (ps_fp s); o_fp := ps_fp s; o_samples := ps_samples s |}) (reshuffle f ss)) =
+              isort out_lt (map (fun s => {| o_labels := g (ps_fp s); o_fp := ps_fp s; o_samples := ps_samples s |}) (reshuffle g ss))).
+    { intros f g Hfg. f_equal. unfold reshuffle.
+      rewrite (map_ext (fun s => (label_str (f (ps_fp s)), s)) (fun s => (label_str (g (ps_fp s)), s))) by (intros; now rewrite Hfg).
+      apply map_ext. intros; now rewrite Hfg. }
+    rewrite Ep in *. apply Hext. exact Hget.
+Qed.
+
+(* the result of a Select does not depend on what the querier did before *)
+Theorem select_step_independent answer st1 st2 c : snd (select_step answer st1 c) = snd (select_step answer st2 c).
+Proof. now rewrite !select_step_meaning. Qed.
+
+Lemma run_selects_map answer cs : forall st, run_selects answer st cs = map (fun c => snd (select_step answer None c)) cs.
+Proof.
+  induction cs as [|c cs IH]; intros st; [reflexivity|]. cbn [run_selects map].
+  destruct (select_step answer st c) as [st' out] eqn:E. rewrite IH. f_equal.
+  change out with (snd (st', out)). rewrite <- E. apply select_step_independent.
+Qed.
+
+Theorem run_selects_independent answer st1 st2 pre1 pre2 c :
+  last (run_selects answer st1 (pre1 ++ [c])) [] = last (run_selects answer st2 (pre2 ++ [c])) [].
+Proof. rewrite !run_selects_map, !map_app. cbn [map]. now rewrite !last_last. Qed.
